@@ -152,3 +152,157 @@ bad_param_harness!(s_bad_param_match_copy_l3, 22, 3);
 bad_param_harness!(s_bad_param_match_copy_l8, 22, 8);
 bad_param_harness!(s_bad_param_done_l4, 24, 4);
 bad_param_harness!(s_bad_param_failed_l1, 31, 1);
+
+// ------------------------------------------------------------------------------------------
+// C04: the real init_tree rejects exactly the code-length sets the specification rejects.
+// Counting, over-subscription and completeness checks run on fully symbolic code lengths; the
+// table-building loops behind them are cut at their first `reverse_bits` call - the probe
+// standing in for it asserts that a set which reached table building is one the reference accepts.
+
+static mut EXPECT_ACCEPT: bool = false;
+
+fn reverse_bits_probe(_n: u16) -> u16 {
+    kani::cover!(true, "table building reached");
+    assert!(unsafe { EXPECT_ACCEPT }, "init_tree builds tables for a code-length set the specification rejects");
+    kani::assume(false);
+    0
+}
+
+/// Whole-array model of `<[i16]>::fill` for the two decode-table arrays.
+pub fn fill_model_tables<T: Clone>(s: &mut [T], value: T) {
+    let n = s.len();
+    if core::mem::size_of::<T>() == 2 && n == 1024 {
+        let v: u16 = unsafe { core::mem::transmute_copy(&value) };
+        let p = s.as_mut_ptr() as *mut [u16; 1024];
+        unsafe { *p = [v; 1024] };
+    } else if core::mem::size_of::<T>() == 2 && n == 576 {
+        let v: u16 = unsafe { core::mem::transmute_copy(&value) };
+        let p = s.as_mut_ptr() as *mut [u16; 576];
+        unsafe { *p = [v; 576] };
+    } else {
+        kani::assume(false);
+    }
+}
+
+/// Kraft sum scaled by 2^15 and the longest length of a code-length set (reference, RFC 1951 3.2.2).
+fn kraft(lens: &[u8]) -> (u32, u8) {
+    let mut sum = 0u32;
+    let mut maxl = 0u8;
+    let mut i = 0;
+    while i < lens.len() {
+        let l = lens[i];
+        if l != 0 {
+            sum += 1u32 << (15 - l);
+            if l > maxl {
+                maxl = l;
+            }
+        }
+        i += 1;
+    }
+    (sum, maxl)
+}
+
+/// Code-length code (19 symbols, 3-bit lengths): must be complete, never over-subscribed.
+#[kani::proof]
+#[kani::unwind(21)]
+#[kani::stub(mzcore::reverse_bits, reverse_bits_probe)]
+#[kani::stub(<[i16]>::fill, fill_model_tables)]
+fn s_init_tree_hufflen_reject() {
+    let lens: [u8; 19] = kani::any();
+    let mut i = 0;
+    while i < 19 {
+        kani::assume(lens[i] <= 7);
+        i += 1;
+    }
+    let (sum, _maxl) = kraft(&lens);
+    let accept = sum == 1 << 15;
+    unsafe { EXPECT_ACCEPT = accept };
+    let mut d = DecompressorOxide::new();
+    d.verif_set_code_size_huffman(&lens);
+    let mut regs = d.verif_regs();
+    regs.block_type = 2;
+    regs.table_sizes = [257, 1, 19];
+    d.verif_set_regs(&regs);
+    let r = mzcore::verif::init_tree_hook(&mut d);
+    // only rejecting paths return (accepting ones are cut inside the probe after its assertion)
+    assert!(r == 3, "a rejected code-length set must end in BadTotalSymbols");
+    assert!(!accept, "init_tree rejected a complete, not over-subscribed code-length code");
+    kani::cover!(sum > 1 << 15, "over-subscribed");
+    kani::cover!(sum < 1 << 15 && sum > 0, "incomplete");
+    kani::cover!(sum == 0, "empty");
+}
+
+/// Distance code (30 symbols, lengths 0..15) in front of an EOB-only literal code: complete, or
+/// at most one symbol of length 1 / no symbol at all (what zlib and the crate document), else rejected.
+#[kani::proof]
+#[kani::unwind(290)]
+#[kani::stub(mzcore::reverse_bits, reverse_bits_probe)]
+#[kani::stub(<[i16]>::fill, fill_model_tables)]
+fn s_init_tree_dist_reject() {
+    let lens: [u8; 30] = kani::any();
+    let mut i = 0;
+    while i < 30 {
+        kani::assume(lens[i] <= 15);
+        i += 1;
+    }
+    let (sum, maxl) = kraft(&lens);
+    let accept = sum == 1 << 15 || (maxl <= 1 && sum <= 1 << 15);
+    unsafe { EXPECT_ACCEPT = accept };
+    let mut lit = [0u8; 257];
+    lit[256] = 1;
+    let mut d = DecompressorOxide::new();
+    d.verif_set_code_sizes(&lit, &lens);
+    let mut regs = d.verif_regs();
+    regs.block_type = 1;
+    d.verif_set_regs(&regs);
+    let r = mzcore::verif::init_tree_hook(&mut d);
+    assert!(r == 3, "a rejected code-length set must end in BadTotalSymbols");
+    assert!(!accept, "init_tree rejected a distance code the specification accepts");
+    kani::cover!(sum > 1 << 15, "over-subscribed");
+    kani::cover!(sum < 1 << 15 && maxl > 1, "incomplete");
+}
+
+// ------------------------------------------------------------------------------------------
+// C04: a code-length repeat code (16/17/18) that runs past HLIT+HDIST is rejected. One real
+// call from the injected state ReadExtraBitsCodeSize with the repeat count in the bit buffer;
+// paths that go on decoding further code lengths or build tables are cut.
+#[kani::proof]
+#[kani::unwind(140)]
+#[kani::stub(mzcore::init_tree, mzcore::verif::cut_init_tree)]
+#[kani::stub(mzcore::decode_huffman_code, mzcore::verif::cut_decode_huffman_code)]
+#[kani::stub(mzcore::decompress_fast, mzcore::verif::cut_decompress_fast)]
+#[kani::stub(mzcore::transfer, mzcore::verif::cut_transfer)]
+#[kani::stub(mzcore::apply_match, mzcore::verif::cut_apply_match)]
+fn s_code_length_run_overshoot() {
+    let mut d = DecompressorOxide::new();
+    let mut regs = d.verif_regs();
+    regs.state = 11; // ReadExtraBitsCodeSize
+    let hlit: u16 = kani::any();
+    let hdist: u16 = kani::any();
+    kani::assume(hlit >= 257 && hlit <= 286 && hdist >= 1 && hdist <= 30);
+    regs.table_sizes = [hlit, hdist, 19];
+    regs.block_type = 2;
+    let total = (hlit + hdist) as u32;
+    let counter: u32 = kani::any();
+    kani::assume(counter >= 1 && counter < total);
+    regs.counter = counter;
+    let sym: u32 = kani::any();
+    kani::assume(sym >= 16 && sym <= 18);
+    regs.dist = sym;
+    regs.num_extra = if sym == 16 { 2 } else if sym == 17 { 3 } else { 7 };
+    let bits: u64 = kani::any();
+    kani::assume(bits < 128);
+    regs.bit_buf = bits;
+    regs.num_bits = 7;
+    assert!(d.verif_set_regs(&regs));
+    let extra = (bits & ((1 << regs.num_extra) - 1)) as u32;
+    let run = extra + if sym == 18 { 11 } else { 3 };
+    let mut out = [0u8; 4];
+    let r = decompress_with_limit(&mut d, &[], &mut out, 0, usize::MAX, TINFL_FLAG_USING_NON_WRAPPING_OUTPUT_BUF);
+    // surviving paths: the run ends the code-length list exactly (table building: cut) or overshoots it
+    assert!(counter + run > total, "only an overshooting run may return here");
+    assert!(r.0 == TINFLStatus::Failed && r.1 == 0 && r.2 == 0);
+    assert!(d.verif_state_id() == 26, "BadCodeSizeSum expected");
+    kani::cover!(sym == 16);
+    kani::cover!(sym == 18 && counter + run == total + 1);
+}
